@@ -519,15 +519,15 @@ def expected_scope(scope_docs, all_docs_by_spec):
         for e in lx.get('entries', []):
             wk = ref('w', spec, e['id'])
             if wk is None:
-                continue
-            if not e.get('external'):
+                pass      # the entry's lexicon is outside the scope: its senses still exist
+            elif not e.get('external'):
                 lem = e['lemma']
                 w_forms[wk].append({'form': lem['writtenForm'], 'id': None, 'script': lem.get('script'),
                                     'tags': [[t['text'], t['category']] for t in lem.get('tags', [])],
                                     'prons': [_pron(p) for p in lem.get('pronunciations', [])], '_rank': 0})
             elif e.get('lemma'):
                 form_extra.setdefault((wk, 'lemma'), []).append(e['lemma'])
-            for i, f in enumerate(e.get('forms', []), 1):
+            for i, f in enumerate(e.get('forms', []) if wk is not None else [], 1):
                 if f.get('external'):
                     form_extra.setdefault((wk, f['id']), []).append(f)
                 else:
@@ -539,7 +539,7 @@ def expected_scope(scope_docs, all_docs_by_spec):
                 sk = ref('s', spec, s['id'])
                 if sk is None:
                     continue
-                if not s.get('external'):
+                if not s.get('external') and wk is not None:
                     w_senses[wk].append([spec, s['id']])
                 s_examples[sk] += [x['text'] for x in s.get('examples', [])]
                 s_counts[sk] += [[c['value'], _m(c.get('meta'))] for c in s.get('counts', [])]
